@@ -188,7 +188,8 @@ class Circle:
         return a < F(314159265358979, 10**14) * lo * r * r or a > F(314159265358980, 10**14) * hi * r * r, desc + f": area {float(a)}"
 
     def signature(self, name, xs, outcome, exc):
-        return {"name": name.split(" raised")[0], "radius_below_1e-2": bool(xs[0] < F(1, 100)), "degree_reduced": bool(outcome and 1 in outcome["degrees"])}
+        sag = F(xs[0]) * F(1 - math.cos(math.pi / self.n))
+        return {"name": name.split(" raised")[0], "arc_sagitta_below_2e-4": bool(sag < F(2, 10**4)), "degree_reduced": bool(outcome and 1 in outcome["degrees"])}
 
 
 class RegularN:
